@@ -408,7 +408,7 @@ def replay_obligation(prop, o, jobs):
         # L2 obligation: no direct concrete input; evaluate the per-instant relations natively on the corpus of real
         # simulations (pycv/monitor.py) -- the first failing relation of this property is the replayed counterexample
         fails = corpus_failures(prop, o.get("job"))
-        rp["corpus_monitor"] = dict(scenarios=9, failures=fails[:5])
+        rp["corpus_monitor"] = dict(scenarios=10, failures=fails[:5])
         if fails:
             confirmed = True
             rp["concrete"] = dict(inputs=dict(scenario=fails[0]["scenario"]), failed=[[fails[0]["relation"], fails[0]]])
